@@ -439,6 +439,10 @@ namespace bxdecay0 {
           throw std::logic_error("bxdecay0::dbd_gA::_load_tabulated_pdf_: Format error at line #"
                                  + std::to_string(nlines) + "!");
         }
+        if (_pimpl_->tab_prob.nsamples < 2) {
+          throw std::logic_error("bxdecay0::dbd_gA::_load_tabulated_pdf_: Invalid number of energy samples at line #"
+                                 + std::to_string(nlines) + "!");
+        }
         if (_pimpl_->tab_prob.e_min[0] < 0.0 or _pimpl_->tab_prob.e_min[0] >= _pimpl_->tab_prob.e_max[0]) {
           throw std::logic_error("bxdecay0::dbd_gA::_load_tabulated_pdf_: Invalid E range!");
         }
@@ -509,6 +513,10 @@ namespace bxdecay0 {
                                    + std::to_string(prob) + "] at line #" + std::to_string(nlines) + "!");
           }
           e2_sample_count++;
+          if (n2 == 0 or prob_index >= (int)(n1 * n2)) {
+            throw std::logic_error("bxdecay0::dbd_gA::_load_tabulated_pdf_: Too many p.d.f. values at line #"
+                                   + std::to_string(nlines) + "!");
+          }
           int index1 = prob_index / n2;
           int index2 = prob_index % n2;
           double e1  = _pimpl_->tab_prob.e_samples[0][index1];
@@ -659,6 +667,10 @@ namespace bxdecay0 {
           throw std::logic_error("bxdecay0::dbd_gA::_load_tabulated_cdf_opt_: Format error at line #"
                                  + std::to_string(nlines) + "!");
         }
+        if (_pimpl_->tab_prob.nsamples < 2) {
+          throw std::logic_error("bxdecay0::dbd_gA::_load_tabulated_cdf_opt_: Invalid number of energy samples at line #"
+                                 + std::to_string(nlines) + "!");
+        }
         if (_pimpl_->tab_prob.e_min[0] < 0.0 or _pimpl_->tab_prob.e_min[0] >= _pimpl_->tab_prob.e_max[0]) {
           throw std::logic_error("bxdecay0::dbd_gA::_load_tabulated_cdf_opt_: Invalid E range!");
         }
@@ -723,6 +735,10 @@ namespace bxdecay0 {
           _pimpl_->tab_prob.e2_cprobs.push_back(empty);
         }
         std::vector<double> & cdf_probs  = _pimpl_->tab_prob.e2_cprobs.back();
+        if ((unsigned int)e2_cdf_count >= _pimpl_->tab_prob.nsamples) {
+          throw std::logic_error("bxdecay0::dbd_gA::_load_tabulated_cdf_opt_: Too many E2 c.d.f. rows at line #"
+                                 + std::to_string(nlines) + "!");
+        }
         unsigned int e2_expected_samples = _pimpl_->tab_prob.nsamples - e2_cdf_count;
         cdf_probs.reserve(e2_expected_samples);
         load_optimized_cdf_array(raw_line, cdf_probs);
